@@ -487,11 +487,28 @@ Fixpoint unmarshal (n : nat) (c : dctx) (t : gty) (j : json) {struct n} : res gv
 Record policy := mkPolicy {
   p_number : bool;    (* K1: json.Number text that is not a JSON number (json.Marshal fails) *)
   p_anynum : bool;    (* K2: a number in an `any` field that is decoded without UseNumber (comes back float64) *)
-  p_empty : bool;     (* K3: a non-nil empty slice/map in an omitempty field (comes back nil) *)
+  p_empty : bool;     (* K3h: a non-nil empty slice/map in an omitempty field where nil and empty mean the same
+                         (comes back nil; no reader can tell: len, range, index and lookup agree) *)
+  p_empty_lossy : bool; (* K3: the same in a field whose being nil is itself information ([lossy_field]) *)
   p_utf8 : bool }.    (* K4: a string or map key that is not valid UTF-8 (comes back with U+FFFD) *)
 
-Definition pol_none := mkPolicy false false false false.
-Definition pol_all := mkPolicy true true true true.
+Definition pol_none := mkPolicy false false false false false.
+Definition pol_all := mkPolicy true true true true true.
+(* clean except for non-nil empty collections in omitempty fields where nil and empty mean the same *)
+Definition pol_tidy := mkPolicy false false true false false.
+
+(* The omitempty slice/map fields in which nil is a VALUE of its own: esc.Expr is a union whose alternative is the
+   member that is non-nil (List, Object, Interpolate, Symbol: `[]` read back with List == nil is the Expr of a null
+   literal, cmd/esc/cli/env_get.go getEnvExpr switches on `root.List != nil` / `root.Object != nil`), and an
+   Interpolation is a reference exactly when Value is non-nil (eval/expr.go export).  In every other omitempty
+   slice/map field of the API structs (Environment.Exprs/Properties, EvaluatedExecutionContext.Properties,
+   Expr.KeyRanges, Schema.$defs/anyOf/oneOf/prefixItems/properties/enum/required/dependentRequired/examples) the code
+   only ever takes len, ranges, indexes or looks up, which cannot tell nil from empty. *)
+Definition lossy_fields : list (string * string) :=
+  [("Expr", "List"); ("Expr", "Object"); ("Expr", "Interpolate"); ("Expr", "Symbol"); ("Interpolation", "Value")].
+
+Definition lossy_field (nm go : string) : bool :=
+  existsb (fun p => String.eqb (fst p) nm && String.eqb (snd p) go) lossy_fields.
 
 Definition is_zero (t : gty) (v : gval) : bool :=
   match t, v with
@@ -506,16 +523,18 @@ Definition is_zero (t : gty) (v : gval) : bool :=
 Section Okp.
 Variable p : policy.
 
-(* fields of a struct; [ok] checks one non-omitted field, [un] already adjusted by the caller *)
-Fixpoint fields_ok (ok : field -> gval -> bool) (fs : list field) (vs : list gval) : bool :=
+(* fields of the struct [nm]; [ok] checks one non-omitted field, [un] already adjusted by the caller *)
+Fixpoint fields_ok (nm : string) (ok : field -> gval -> bool) (fs : list field) (vs : list gval) : bool :=
   match fs, vs with
   | [], [] => true
   | f :: fs', v :: vs' =>
       (if f_skip f then is_zero (f_ty f) v
        else match is_empty (f_ty f) v with
             | None => false
-            | Some e => if f_omit f && e then negb (nonnil_empty v) || p_empty p else ok f v
-            end) && fields_ok ok fs' vs'
+            | Some e => if f_omit f && e
+                        then negb (nonnil_empty v) || (if lossy_field nm (f_go f) then p_empty_lossy p else p_empty p)
+                        else ok f v
+            end) && fields_ok nm ok fs' vs'
   | _, _ => false
   end.
 
@@ -571,16 +590,16 @@ Fixpoint okp (n : nat) (c : dctx) (t : gty) (v : gval) {struct n} : bool :=
           | Some sd =>
               let fs := sd_fields sd in
               match sd_marshal sd, sd_unmarshal sd with
-              | CustNone, CustNone => fields_ok (fun f v => okp n' (inherit c) (f_ty f) v) fs vs
-              | CustNone, CustUseNumber => fields_ok (fun f v => okp n' (DPlain true) (f_ty f) v) fs vs
+              | CustNone, CustNone => fields_ok nm (fun f v => okp n' (inherit c) (f_ty f) v) fs vs
+              | CustNone, CustUseNumber => fields_ok nm (fun f v => okp n' (DPlain true) (f_ty f) v) fs vs
               | CustNone, CustValue =>
-                  fields_ok (fun f v => okp n' (if String.eqb (f_go f) "Value" then DValue nm else DPlain false)
+                  fields_ok nm (fun f v => okp n' (if String.eqb (f_go f) "Value" then DValue nm else DPlain false)
                                             (f_ty f) v) fs vs
               | CustSchema, CustSchema =>
                   match bool_field fs vs "Never", bool_field fs vs "Always" with
                   | Some true, Some _ => flag_only fs vs "Never"
                   | Some false, Some true => flag_only fs vs "Always"
-                  | Some false, Some false => fields_ok (fun f v => okp n' (DPlain true) (f_ty f) v) fs vs
+                  | Some false, Some false => fields_ok nm (fun f v => okp n' (DPlain true) (f_ty f) v) fs vs
                   | _, _ => false
                   end
               | _, _ => false
@@ -597,14 +616,52 @@ Definition clean (n : nat) (c : dctx) (t : gty) (v : gval) : bool := okp pol_non
 (* well-formed at all (possibly inside known-finding classes) *)
 Definition wellformed (n : nat) (c : dctx) (t : gty) (v : gval) : bool := okp pol_all n c t v.
 
-(* the four known-finding classes: "well-formed, and not acceptable once this class is forbidden" *)
-Definition kf_nonfinite n c t v : bool := wellformed n c t v && negb (okp (mkPolicy false true true true) n c t v).
-Definition kf_any_number n c t v : bool := wellformed n c t v && negb (okp (mkPolicy true false true true) n c t v).
-Definition kf_empty_omitted n c t v : bool := wellformed n c t v && negb (okp (mkPolicy true true false true) n c t v).
-Definition kf_non_utf8 n c t v : bool := wellformed n c t v && negb (okp (mkPolicy true true true false) n c t v).
+(* clean up to nil-for-empty where it does not matter *)
+Definition tidy (n : nat) (c : dctx) (t : gty) (v : gval) : bool := okp pol_tidy n c t v.
+
+(* the known-finding classes: "well-formed, and not acceptable once this class is forbidden" *)
+Definition kf_nonfinite n c t v : bool := wellformed n c t v && negb (okp (mkPolicy false true true true true) n c t v).
+Definition kf_any_number n c t v : bool := wellformed n c t v && negb (okp (mkPolicy true false true true true) n c t v).
+(* any omitted non-nil empty collection (the class as it was first recorded: 18 fields) ... *)
+Definition kf_empty_omitted n c t v : bool := wellformed n c t v && negb (okp (mkPolicy true true false false true) n c t v).
+(* ... and the part of it that loses information: one in a [lossy_field] (5 fields) *)
+Definition kf_empty_lossy n c t v : bool := wellformed n c t v && negb (okp (mkPolicy true true true false true) n c t v).
+Definition kf_non_utf8 n c t v : bool := wellformed n c t v && negb (okp (mkPolicy true true true true false) n c t v).
 
 Definition in_known_class n c t v : bool :=
   kf_nonfinite n c t v || kf_any_number n c t v || kf_empty_omitted n c t v || kf_non_utf8 n c t v.
+
+(* the classes still recorded as known findings: outside them a well-formed value is [tidy] *)
+Definition in_lossy_class n c t v : bool :=
+  kf_nonfinite n c t v || kf_any_number n c t v || kf_empty_lossy n c t v || kf_non_utf8 n c t v.
+
+(* ---- what comes back: non-nil empty collections in omitempty fields read back as nil ------------------------- *)
+Fixpoint nilify_fields (nil_of : gty -> gval -> gval) (fs : list field) (vs : list gval) : list gval :=
+  match fs, vs with
+  | f :: fs', v :: vs' =>
+      (if f_skip f then v
+       else if f_omit f && nonnil_empty v then GNil
+       else nil_of (f_ty f) v) :: nilify_fields nil_of fs' vs'
+  | _, _ => vs
+  end.
+
+Fixpoint nilify (n : nat) (t : gty) (v : gval) {struct n} : gval :=
+  match n with
+  | O => v
+  | S n' =>
+      match t, v with
+      | TAny, GIface t' v' => GIface t' (nilify n' t' v')
+      | TPtr t', GPtr v' => GPtr (nilify n' t' v')
+      | TSlice t', GSlice l => GSlice (map (nilify n' t') l)
+      | TMap t', GMap l => GMap (map (fun kv => (fst kv, nilify n' t' (snd kv))) l)
+      | TNamed nm, GStruct vs =>
+          match lookup_sd tb nm with
+          | Some sd => GStruct (nilify_fields (nilify n') (sd_fields sd) vs)
+          | None => v
+          end
+      | _, _ => v
+      end
+  end.
 
 End WithTables.
 
